@@ -5,6 +5,10 @@ import numpy as np
 
 from gym_gridverse.action import Action
 from gym_gridverse.envs import transition_functions as transition_fs
+from gym_gridverse.agent import Agent
+from gym_gridverse.geometry import Area, Position, Shape
+from gym_gridverse.grid import Grid
+from gym_gridverse.state import State
 from gym_gridverse.grid_object import Box, Color, Door, Exit, Floor, Key, MovingObstacle, NoneGridObject, Telepod, Wall
 
 from .. import compose, dyndrive, dynmon, enc, gen, search, workloads
@@ -31,7 +35,8 @@ ASSUMPTIONS = ['door/box reference semantics from the statement and the Door doc
 EXHAUSTIVE_NOTE = 'product status x colour x held x relative pose x action (3x3 grids); full reachable graph of key-door 5x5 layouts (one per door row)'
 REQUIRED = {'quick': {'fn.actuate_door': 3000, 'fn.actuate_box': 3000, 'product.cases': 2000, 'event.locked_opened': 20,
                       'event.locked_refused': 50, 'event.closed_opened': 50, 'event.box_opened': 50,
-                      'graph.transitions': 2000, 'history.steps': 500, 'flags.door': 3, 'product.with_obstacles': 100, 'stateful.steps': 400}}
+                      'graph.transitions': 2000, 'history.steps': 500, 'flags.door': 3, 'product.with_obstacles': 100, 'stateful.steps': 400,
+                      'constructed.worlds': 80, 'constructed.steps': 500}}
 ASPECTS = ('door', 'box', 'key')
 
 
@@ -117,6 +122,69 @@ def stateful_path(ctx, n):
                               f'stateful step #{t} ({a.name}) facing {enc.eo(subject)}: env.state is not the state the door/box rules '
                               f'predict (cell in front now {enc.eo(env.state.grid[fy, fx]) if gen.in_grid(env.state, fy, fx) else None})',
                               'stateful_case', {'k': [ctx.seed, ctx.shard, k]})
+                break
+
+
+def constructed_worlds(ctx, n):
+    """worlds laid out with the library's own construction helpers (Grid.from_shape, design.draw_*) and factories of doors
+    and boxes, then driven through the stateful interface: each door / box is its own object, so opening the one in front
+    leaves every other one as it was (deep comparison with the reference after every step)"""
+    from .. import refmodel
+    from gym_gridverse import design
+    names = ['move_agent', 'turn_agent', 'actuate_door', 'actuate_box', 'pickndrop']
+    chain = [{'name': n} for n in names]
+    for k in range(n):
+        rng = gen.rng_for('C10constructed', ctx.seed, ctx.shard, k)
+        h, w = rng.randint(3, 6), rng.randint(3, 6)
+        c = rng.choice(list(Color))
+        factory = rng.choice([lambda: Door(Door.Status.CLOSED, c), lambda: Door(Door.Status.LOCKED, c), lambda: Box(Key(c)),
+                              lambda: Box(Door(Door.Status.CLOSED, c)), lambda: Door(Door.Status.OPEN, c)])
+        how = rng.choice(['from_shape', 'line_horizontal', 'line_vertical', 'room', 'room_grid', 'area_filled', 'cartesian'])
+        if how == 'from_shape':
+            ok, grid = call_real(Grid.from_shape, (h, w), factory=factory)
+        else:
+            ok, grid = call_real(Grid.from_shape, rng.choice([(h, w), Shape(h, w)]))
+            if ok:
+                if how == 'line_horizontal':
+                    ok, _ = call_real(design.draw_line_horizontal, grid, rng.randrange(h), range(w), factory)
+                elif how == 'line_vertical':
+                    ok, _ = call_real(design.draw_line_vertical, grid, range(h), rng.randrange(w), factory)
+                elif how == 'room':
+                    ok, _ = call_real(design.draw_room, grid, Area((0, h - 1), (0, w - 1)), factory)
+                elif how == 'room_grid':
+                    ok, _ = call_real(design.draw_room_grid, grid, [0, h // 2, h - 1], [0, w // 2, w - 1], factory)
+                elif how == 'area_filled':
+                    ok, _ = call_real(design.draw_area, grid, Area((0, h // 2), (0, w // 2)), factory, fill=True)
+                else:
+                    ok, _ = call_real(design.draw_cartesian_product, grid, [0, h - 1], [0, w - 1, w // 2], factory)
+        ctx.ev()
+        if not ok:
+            continue
+        ctx.hit('constructed.worlds')
+        ctx.cat('constructed.' + how)
+        y, x = rng.randrange(h), rng.randrange(w)
+        grid[y, x] = Floor()
+        state = State(grid, Agent(Position(y, x), rng.choice(gen.ORIENTATIONS), Key(c) if rng.random() < 0.6 else NoneGridObject()))
+        env = compose.assemble((h, w), [Floor, Wall, Door, Key, Box, Exit], list(Color), list(Action),
+                               compose.build('transition', {'name': 'chain', 'transition_functions': chain}),
+                               compose.build('reward', {'name': 'living_reward'}), compose.build('terminating', {'name': 'reach_exit'}),
+                               compose.build('observation', {'name': 'fully_transparent', 'area': [[-1, 0], [-1, 1]]}),
+                               gen.Area((-1, 0), (-1, 1)), lambda rng=None, s=state: s)
+        env.reset()
+        for t in range(10):
+            a = rng.choice([Action.ACTUATE, Action.ACTUATE, Action.MOVE_FORWARD, Action.TURN_LEFT, Action.TURN_RIGHT, Action.PICK_N_DROP])
+            model = refmodel.ref_chain(env.state, names, a)
+            ok, res = call_real(env.step, a)
+            ctx.ev()
+            ctx.hit('constructed.steps')
+            if not ok:
+                break
+            if enc.es(env.state) != model:
+                diff = [(i // w, i % w) for i, (p, q) in enumerate(zip(enc.es(env.state)[0][2], model[0][2])) if p != q]
+                ctx.violation('door', 'constructed.state_differs_from_reference',
+                              f'world built with {how} and a door/box factory, step #{t} ({a.name}): env.state differs from what the '
+                              f'door/box rules predict at cells {diff[:6]} (objects shared between cells?)',
+                              'constructed_case', {'k': [ctx.seed, ctx.shard, k]})
                 break
 
 
@@ -312,6 +380,7 @@ def run(ctx):
             pass
         ctx.sample('sweep_state', {'state': enc.render(state), 'category': cat})
         stateful_path(ctx, ctx.pick(150, 2500))
+        constructed_worlds(ctx, ctx.pick(120, 2000))
         keydoor_graphs(ctx, sink)
         histories(ctx, sink, ctx.pick(2, 30), ctx.pick(150, 600))
 
@@ -326,6 +395,9 @@ def replay(ctx, kind, payload):
     elif kind == 'stateful_case':
         ctx.seed, ctx.shard = payload['k'][0], payload['k'][1]
         stateful_path(ctx, payload['k'][2] + 1)
+    elif kind == 'constructed_case':
+        ctx.seed, ctx.shard = payload['k'][0], payload['k'][1]
+        constructed_worlds(ctx, payload['k'][2] + 1)
     elif kind in ('graph', 'history'):
         sink = dynmon.Sink(ctx, ASPECTS)
         with Patch() as patch:
